@@ -23,7 +23,7 @@ Explained(e) ==
          /\ PrintT(<<"MSG", "KNOWN", d, e.case>>)
 
 Next == /\ l <= Len(Rec)
-        /\ Explained(Rec[l])
+        /\ Explained(Rec[l]) = TRUE      \* as a value: evaluated once, not split into sub-actions
         /\ l' = l + 1
 Spec == Init /\ [][Next]_l
 
